@@ -33,6 +33,7 @@ type crudFunc struct {
 	SQL   string    `json:"sql"`
 	Stmt  *crudStmt `json:"stmt,omitempty"`
 	NArgs int       `json:"nargs"`
+	Args  []string  `json:"args"` // Go arguments after the statement: field name for item.F, source text otherwise
 	Scan  []string  `json:"scan"`
 	Err   string    `json:"parseError,omitempty"`
 }
@@ -221,7 +222,17 @@ func extractCrud(text string) (map[string][]string, []crudFunc, error) {
 				if err != nil {
 					return true
 				}
-				funcs = append(funcs, crudFunc{Name: name, SQL: sql, NArgs: len(call.Args) - 1})
+				var args []string
+				for _, a := range call.Args[1:] {
+					if se, ok := a.(*ast.SelectorExpr); ok {
+						if id, ok := se.X.(*ast.Ident); ok && id.Name == "item" {
+							args = append(args, se.Sel.Name)
+							continue
+						}
+					}
+					args = append(args, "?")
+				}
+				funcs = append(funcs, crudFunc{Name: name, SQL: sql, NArgs: len(call.Args) - 1, Args: args})
 			}
 			return true
 		})
@@ -350,6 +361,34 @@ func runC05(r *rep.Report, thorough bool) error {
 				rm := res.(map[string]any)
 				f := toCheck[i]
 				in2 := map[string]any{"case": a.Case.ID, "target": tg, "func": f.Name, "sql": wsRe.ReplaceAllString(f.SQL, " "), "nargs": f.NArgs, "sources": a.Case.Sources()}
+				// the Go side directly: INSERT / UPDATE of a table write every column but the serial id,
+				// column i from the field the scan reads column i into; UPDATE's last argument is the id
+				if st := f.Stmt; (st.Kind == "insert" || st.Kind == "update") && len(st.Returning) == len(f.Scan) && len(f.Scan) > 0 {
+					fieldOf := map[string]string{}
+					var wantCols []string
+					for k, c := range st.Returning {
+						fieldOf[c] = f.Scan[k]
+						if c != "id" {
+							wantCols = append(wantCols, c)
+						}
+					}
+					msg := ""
+					if strings.Join(st.Cols, ",") != strings.Join(wantCols, ",") {
+						msg = fmt.Sprintf("writes the columns %v, the table's columns without the serial id are %v", st.Cols, wantCols)
+					} else {
+						for k, c := range st.Cols {
+							if k < len(f.Args) && f.Args[k] != fieldOf[c] {
+								msg = fmt.Sprintf("column %s receives item.%s, the scan reads it into %s", c, f.Args[k], fieldOf[c])
+							}
+						}
+						if idf, ok := fieldOf["id"]; ok && st.Kind == "update" && (len(f.Args) != len(st.Cols)+1 || f.Args[len(f.Args)-1] != idf) {
+							msg = "the last argument of UPDATE is not the id field"
+						}
+					}
+					if msg != "" {
+						r.Fail(rep.Failure{Signature: "c05:written-columns-vs-fields", What: f.Name + ": " + msg, Input: in2})
+					}
+				}
 				if ok, _ := rm["namesExist"].(bool); !ok {
 					r.Fail(rep.Failure{Signature: "c05:unknown-table-or-column", What: "a generated statement names a table or column that the generated schema does not define", Input: in2})
 				}
